@@ -67,6 +67,19 @@ func (b *Body) call(v ssa.Value, c *ssa.CallCommon, blk *ssa.BasicBlock, reach *
 		clos = b.val(mc).Clos
 	}
 	con := ft.e.contracts.Fns[key]
+	// a method of a concrete type declared to implement a contracted interface
+	// is called under the interface method's contract
+	if con == nil && fn != nil && fn.Signature.Recv() != nil {
+		if i := strings.LastIndex(key, ")."); i > 0 {
+			if ik, ok := ft.e.contracts.Implements[key[:i+1]]; ok {
+				if ic := ft.e.contracts.Fns[ik+key[i+1:]]; ic != nil {
+					con = ic
+					key = ik + key[i+1:]
+					ft.trusted["implements: "+fn.String()+" is called under the contract of "+key] = true
+				}
+			}
+		}
+	}
 	// `calls` clauses of the function under verification
 	b.callSiteClauses(key, c, sig, args, reach, st, pos)
 	if con == nil && b.nativeCall(v, key, c, args, blk, reach, st) {
@@ -85,7 +98,16 @@ func (b *Body) call(v ssa.Value, c *ssa.CallCommon, blk *ssa.BasicBlock, reach *
 // calleeEnv builds the environment binding the callee's formal names.
 func (b *Body) calleeEnv(con *FnContract, sig *types.Signature, isInvoke bool, args []*Val, cur, old State) *CEnv {
 	ft := b.ft
-	env := &CEnv{ft: ft, vars: map[string]*CV{}, cur: cur, old: old, body: b}
+	// no body: identifiers of a callee's contract never resolve to the caller's locals
+	env := &CEnv{ft: ft, vars: map[string]*CV{}, cur: cur, old: old}
+	if con != nil && con.PkgPath != "" {
+		for _, p := range ft.e.prog.AllPackages() {
+			if p.Pkg.Path() == con.PkgPath {
+				env.pkg = p.Pkg
+				break
+			}
+		}
+	}
 	names := formalNames(con, sig, isInvoke)
 	for i, a := range args {
 		if i < len(names) && names[i] != "" && names[i] != "_" {
@@ -216,6 +238,12 @@ func (b *Body) applyContract(v ssa.Value, con *FnContract, key string, sig *type
 	}
 	if con.Trusted || con.NoBody {
 		ft.trusted[key] = true
+	}
+	// crash consistency: a process can only die between two durable effects.
+	// The boundary invariants of the function under verification are asserted
+	// in the state right before every call that has a durable (ghost) effect.
+	if ft.con != nil && len(ft.con.Boundary) > 0 && ft.e.durable(key, con) {
+		b.boundary("call:"+shortKey(key), reach, st, pos)
 	}
 	// frame: havoc what the callee may modify
 	mods := ft.e.modSet(key, con)
@@ -718,4 +746,25 @@ func constLenOfVarargs(v ssa.Value) (int, bool) {
 		return 0, false
 	}
 	return int(arr.Len()), true
+}
+
+// boundary asserts the boundary invariants at a program point.
+func (b *Body) boundary(where string, reach *T, st State, pos token.Pos) {
+	ft := b.ft
+	env := ft.fnEnv(b, st)
+	env.at = b.curBlock
+	n := ft.count("boundary@" + where)
+	for _, cl := range ft.con.Boundary {
+		g, err := env.EvalBool(cl.Expr)
+		if err != nil {
+			ft.shapeFail(cl, err)
+			continue
+		}
+		name := "boundary"
+		if cl.Name != "" {
+			name += "@" + cl.Name
+		}
+		name += fmt.Sprintf("@%s#%d", where, n)
+		ft.oblige(&Obligation{Name: name, Kind: "boundary", Tags: ft.clauseTags(cl), Guard: reach, Goal: g, Src: cl.Src, Pos: ft.pos(pos)})
+	}
 }
